@@ -3,6 +3,7 @@
 package harness
 
 import (
+	"crypto/tls"
 	"context"
 	"encoding/json"
 	"fmt"
@@ -19,6 +20,8 @@ import (
 type c12Case struct {
 	Stream    []EnvSpec `json:"stream"`
 	TLS       bool      `json:"tls,omitempty"`
+	TLS12     bool      `json:"tls12,omitempty"`        // TLS capped at version 1.2
+	SenderEnd bool      `json:"senderCloses,omitempty"` // the sender closes its transport right after its last Send (under TLS the close notification follows the data at once)
 	WritePlan []Fault   `json:"writePlan,omitempty"` // consumed by the sender's connection writes
 	ReadPlan  []Fault   `json:"readPlan,omitempty"`  // consumed by the receiver's connection reads
 	ReadChunk int       `json:"readChunk,omitempty"` // every read delivers at most this many bytes
@@ -89,6 +92,10 @@ func runC12(c *c12Case) *c12Obs {
 	cl, sv := Pipe(PipeOpts{Capacity: capacity, Capture: true})
 	var scfg, ccfg *lime.TCPConfig
 	if c.TLS {
+		if c.TLS12 {
+			SetTLSMax(tls.VersionTLS12)
+			defer SetTLSMax(0)
+		}
 		s, cc := TLSConfigs()
 		scfg, ccfg = &lime.TCPConfig{TLSConfig: s}, &lime.TCPConfig{TLSConfig: cc}
 	}
@@ -155,6 +162,9 @@ func runC12(c *c12Case) *c12Obs {
 			} else {
 				obs.SendErr[i] = ""
 			}
+		}
+		if c.SenderEnd && ts.Connected() {
+			_ = ts.Close()
 		}
 	}()
 	go func() {
@@ -258,6 +268,12 @@ func judgeC12(c *c12Case, obs *c12Obs, o *Outcome) {
 	}
 	if c.TLS {
 		o.Class("tls")
+		if c.TLS12 {
+			o.Class("tls-1.2")
+		}
+	}
+	if c.SenderEnd {
+		o.Class("sender-closes-after-its-last-send")
 	}
 	o.NonTrivial = fc != "no-fault" || obs.Reads > obs.Frames+1
 	if strings.HasPrefix(obs.RecvErr, "harness:") {
@@ -435,6 +451,20 @@ func TestC12Sweep(t *testing.T) {
 			run(&c12Case{Stream: big, PipeCap: cap, TLS: true, ReadPlan: []Fault{{Op: FStall, D: 7000}}, SendCtx: []string{ctx0}})
 		}
 	}
+	// the sender says its last word and closes at once (under TLS 1.2 the receiver's connection then hands over the last
+	// record together with the end of the stream), the receiver reads afterwards or alongside
+	for _, tls12 := range []bool{false, true} {
+		for _, coalesce := range []bool{true, false} {
+			for _, chunk := range []int{0, 1, 7, 64} {
+				run(&c12Case{Stream: st, TLS: true, TLS12: tls12, SenderEnd: true, Coalesce: coalesce, ReadChunk: chunk})
+				run(&c12Case{Stream: one, TLS: true, TLS12: tls12, SenderEnd: true, Coalesce: coalesce, ReadChunk: chunk})
+				run(&c12Case{Stream: big, TLS: true, TLS12: tls12, SenderEnd: true, Coalesce: coalesce, ReadChunk: chunk})
+				if !tls12 {
+					run(&c12Case{Stream: st, SenderEnd: true, Coalesce: coalesce, ReadChunk: chunk})
+				}
+			}
+		}
+	}
 	// a receiver that stays away for longer than one, two and three write polls while the sender (with a context that
 	// lives on) sits in the middle of an envelope: the write resumes after each poll, nothing is lost or repeated
 	for _, cap := range []int{16, 64, 200, 1024} {
@@ -519,6 +549,10 @@ func TestC12(t *testing.T) {
 		pad := rapid.SampledFrom([]int{0, 10, 200, 5000, 65000}).Draw(rt, "pad")
 		c := &c12Case{Stream: c12Stream(n, pad)}
 		c.TLS = rapid.IntRange(0, 3).Draw(rt, "tls") == 0
+		if c.TLS {
+			c.TLS12 = rapid.Bool().Draw(rt, "tls12")
+		}
+		c.SenderEnd = rapid.IntRange(0, 2).Draw(rt, "senderCloses") == 0
 		c.Coalesce = rapid.Bool().Draw(rt, "coalesce")
 		c.PipeCap = rapid.SampledFrom([]int{0, 64, 1024, 4096}).Draw(rt, "cap")
 		if c.Coalesce {
@@ -554,6 +588,12 @@ func TestC12(t *testing.T) {
 			c.WritePlan = genFaults(rt, "w", true, 400)
 		} else if rapid.Bool().Draw(rt, "tlscut") {
 			c.WritePlan = []Fault{{Op: FPass}, {Op: FCut, N: rapid.IntRange(0, 300).Draw(rt, "cutAt")}}
+		}
+		for _, f := range c.WritePlan {
+			if f.Op == FCut || f.Op == FReset {
+				// the closing itself writes under TLS; a cut that hits it is no cut of a Send
+				c.SenderEnd = false
+			}
 		}
 		o := &Outcome{}
 		var obs *c12Obs
